@@ -3,6 +3,7 @@ package c10
 import (
 	"context"
 	"fmt"
+	"math"
 	"net/url"
 	"strconv"
 	"strings"
@@ -17,11 +18,14 @@ import (
 
 // httpSpec is one response shape of the Cache-Control controlled endpoint.
 type httpSpec struct {
-	MaxAge     *int          `json:"max_age,omitempty"`
-	Flag       string        `json:"flag,omitempty"`    // "", no-store, no-cache, private, public
-	Expires    string        `json:"expires,omitempty"` // "", seconds relative to the response, raw:<literal>
-	Date       string        `json:"date,omitempty"`    // "" (now) | none
-	Age        *int          `json:"age,omitempty"`
+	MaxAge  *int   `json:"max_age,omitempty"`
+	Flag    string `json:"flag,omitempty"`    // "", no-store, no-cache, private, public
+	Expires string `json:"expires,omitempty"` // "", seconds relative to the response, raw:<literal>
+	Date    string `json:"date,omitempty"`    // "" (now) | none | seconds relative to the response (a clock ahead / behind)
+	Age     *int   `json:"age,omitempty"`
+	// CCLines are further Cache-Control header LINES of the response (RFC 7230 3.2.2: a list header spread over several
+	// lines means the same as the joined list)
+	CCLines    []string      `json:"further_cache_control_lines,omitempty"`
 	DefaultTTL time.Duration `json:"default_ttl_ns"`
 	Method     string        `json:"method"`
 }
@@ -42,6 +46,9 @@ func (h httpSpec) query(nonce string) string {
 	if cc := h.cc(); cc != "" {
 		q.Set("cc", cc)
 	}
+	for _, l := range h.CCLines {
+		q.Add("cc", l)
+	}
 	if h.Expires != "" {
 		q.Set("expires", h.Expires)
 	}
@@ -60,8 +67,45 @@ func (h httpSpec) name() string {
 	if h.Age != nil {
 		age = strconv.Itoa(*h.Age)
 	}
-	return fmt.Sprintf("cc=%q expires=%q date=%q age=%q default_ttl=%s %s", h.cc(), h.Expires, h.Date, age, h.DefaultTTL, h.Method)
+	cc := fmt.Sprintf("%q", h.cc())
+	for _, l := range h.CCLines {
+		cc += fmt.Sprintf("+%q", l)
+	}
+	return fmt.Sprintf("cc=%s expires=%q date=%q age=%q default_ttl=%s %s", cc, h.Expires, h.Date, age, h.DefaultTTL, h.Method)
 }
+
+// directives reads all Cache-Control lines of the response as one list (the generated responses name max-age at most once).
+func (h httpSpec) directives() (maxAge *int, noStore, noCache bool) {
+	for _, line := range append([]string{h.cc()}, h.CCLines...) {
+		for _, d := range strings.Split(line, ",") {
+			d = strings.TrimSpace(d)
+			switch {
+			case d == "no-store":
+				noStore = true
+			case d == "no-cache":
+				noCache = true
+			case strings.HasPrefix(d, "max-age="):
+				if n, err := strconv.Atoi(strings.TrimPrefix(d, "max-age=")); err == nil && maxAge == nil {
+					maxAge = &n
+				}
+			}
+		}
+	}
+	return
+}
+
+// dateOffset is the position of the Date header relative to the instant of the response (0: now or absent).
+func (h httpSpec) dateOffset() time.Duration {
+	if n, err := strconv.Atoi(h.Date); err == nil {
+		return time.Duration(n) * time.Second
+	}
+	return 0
+}
+
+// maxAgeSeconds is the largest number of seconds a time.Duration can hold.
+const maxDurationSeconds = int(math.MaxInt64 / int64(time.Second))
+
+func (h httpSpec) hugeAge() bool { return h.Age != nil && *h.Age > maxDurationSeconds }
 
 // freshness is the harness' own reading of RFC 7234 section 4.2 for the generated response (private cache).
 type freshness struct {
@@ -74,22 +118,30 @@ type freshness struct {
 }
 
 func (h httpSpec) freshness() freshness {
-	f := freshness{NoStore: h.Flag == "no-store", NoCache: h.Flag == "no-cache"}
+	maxAge, noStore, noCache := h.directives()
+	f := freshness{NoStore: noStore, NoCache: noCache}
 	switch {
-	case h.MaxAge != nil:
-		f.Lifetime, f.Source = time.Duration(*h.MaxAge)*time.Second, "max-age"
+	case maxAge != nil:
+		// a Date header ahead of or behind the cache's clock does not change the lifetime max-age grants
+		f.Lifetime, f.Source = time.Duration(*maxAge)*time.Second, "max-age"
 	case strings.HasPrefix(h.Expires, "raw:"):
 		f.Lifetime, f.Source = 0, "invalid-expires" // RFC 7234 5.3: invalid dates represent a time in the past
 	case h.Expires != "":
 		n, _ := strconv.Atoi(h.Expires)
-		f.Lifetime, f.Source = time.Duration(n)*time.Second, "expires" // Date is the response instant (or absent)
+		// RFC 7234 4.2.1: Expires minus Date (Date is the response instant, absent, or offset by a clock difference). With a
+		// Date in the past this is more than the time left until the Expires instant; that the age of such a response is
+		// not derived from its Date is outside the statement (see the assumptions), so the longer lifetime is the bound
+		f.Lifetime, f.Source = time.Duration(n)*time.Second-h.dateOffset(), "expires"
 	case h.DefaultTTL > 0:
 		f.Lifetime, f.Source = h.DefaultTTL, "default_ttl"
 	default:
 		f.Source = "none"
 	}
 	f.Remaining = f.Lifetime
-	if h.Age != nil {
+	switch {
+	case h.hugeAge():
+		f.Remaining = -time.Duration(math.MaxInt64 / 2) // older than any lifetime
+	case h.Age != nil:
 		f.Remaining -= time.Duration(*h.Age) * time.Second
 	}
 	f.MustNot = f.NoStore || f.Lifetime <= 0 || f.Remaining <= 0
@@ -111,15 +163,32 @@ type httpRec struct {
 
 const httpSlack = 2 * time.Second
 
+// judgeHTTP applies the freshness model to the recorded phases. A violation of a response with several Cache-Control
+// lines which the model of its FIRST line alone would accept gets its own signature: the later lines were not looked at.
 func judgeHTTP(rec *httpRec) {
-	f := rec.Freshness
+	rec.Findings = httpFindings(rec, rec.Freshness, true)
+	if len(rec.Findings) == 0 || len(rec.Response.CCLines) == 0 {
+		return
+	}
+	first := rec.Response
+	first.CCLines = nil
+	if len(httpFindings(rec, first.freshness(), false)) == 0 {
+		for i := range rec.Findings {
+			rec.Findings[i].Signature = "httpcache-later-cache-control-lines-ignored"
+			rec.Findings[i].What += fmt.Sprintf(" - what was stored / served is what the first Cache-Control line %q alone allows", first.cc())
+		}
+	}
+}
+
+func httpFindings(rec *httpRec, f freshness, main bool) []finding {
+	var findings []finding
 	add := func(sig, what string) {
-		for _, x := range rec.Findings {
+		for _, x := range findings {
 			if x.Signature == sig {
 				return
 			}
 		}
-		rec.Findings = append(rec.Findings, finding{sig, what})
+		findings = append(findings, finding{sig, what})
 	}
 	setSig := ""
 	for _, ph := range rec.Phases {
@@ -137,6 +206,9 @@ func judgeHTTP(rec *httpRec) {
 			case f.Source == "invalid-expires":
 				setSig = "httpcache-invalid-expires-treated-as-absent"
 				add(setSig, fmt.Sprintf("Set(ttl=%s) although the Expires value is invalid (= already expired)", ev.TTL))
+			case f.MustNot && rec.Response.hugeAge() && f.Lifetime > 0:
+				setSig = "httpcache-huge-age-extends-lifetime"
+				add(setSig, fmt.Sprintf("Set(ttl=%s): freshness lifetime %s, Age=%ds (more seconds than a time.Duration holds)", ev.TTL, f.Lifetime, *rec.Response.Age))
 			case f.MustNot && rec.Response.Age != nil && f.Lifetime > 0:
 				setSig = "httpcache-age-ignored"
 				add(setSig, fmt.Sprintf("Set(ttl=%s): freshness lifetime %s is used up by Age=%ds", ev.TTL, f.Lifetime, *rec.Response.Age))
@@ -153,6 +225,7 @@ func judgeHTTP(rec *httpRec) {
 			}
 		}
 	}
+	advance, _ := time.ParseDuration(rec.Advance)
 	for _, ph := range rec.Phases[1:] {
 		reached := ph.ServerCalls > 0
 		if reached {
@@ -167,8 +240,10 @@ func judgeHTTP(rec *httpRec) {
 			add(sig, "the repeated request did not reach the server although the first response had no positive freshness lifetime")
 		case ph.Phase == "r2" && f.NoCache:
 			// RFC 7234 5.2.2.2 forbids this, but the statement of C10 is about freshness lifetimes only: observation, no verdict
-			rec.NoCacheServed = true
-		case ph.Phase == "r3":
+			if main {
+				rec.NoCacheServed = true
+			}
+		case ph.Phase == "r3" && advance > f.Remaining:
 			sig := "httpcache-served-after-freshness"
 			if setSig != "" {
 				sig = setSig
@@ -176,6 +251,7 @@ func judgeHTTP(rec *httpRec) {
 			add(sig, fmt.Sprintf("served from cache after the clock was advanced by %s (remaining freshness %s)", rec.Advance, f.Remaining))
 		}
 	}
+	return findings
 }
 
 func (e *env) httpSpecs() []httpSpec {
@@ -204,12 +280,65 @@ func (e *env) httpSpecs() []httpSpec {
 			}
 		}
 	}
+	// a Date header ahead of / behind the cache's clock (alone and together with Age), Cache-Control spread over several
+	// header lines, Age values beyond what fits into a time.Duration
+	var dated, lines []httpSpec
+	for _, ma := range maxAges {
+		for _, fl := range []string{"", "public", "no-cache"} {
+			for _, ex := range []string{"", "-5", "5", "3600"} {
+				for _, dt := range []string{"3600", "30", "-30", "-3600"} {
+					for _, ag := range []*int{nil, ip(3)} {
+						for _, dttl := range dttls {
+							dated = append(dated, httpSpec{MaxAge: ma, Flag: fl, Expires: ex, Date: dt, Age: ag, DefaultTTL: dttl, Method: "GET"})
+						}
+					}
+				}
+			}
+		}
+	}
+	for _, ma := range maxAges {
+		for _, fl := range flags {
+			if ma == nil && fl == "" {
+				continue
+			}
+			// a directive is given once (RFC 7234 4.2.1 leaves open what several differing max-age values mean)
+			mores := [][]string{{"max-age=0"}, {"no-store"}, {"max-age=5"}, {"public"}, {"private", "max-age=0"}}
+			if ma != nil {
+				mores = [][]string{{"no-store"}, {"public"}, {"private", "no-store"}}
+			}
+			for _, more := range mores {
+				for _, ex := range []string{"", "3600"} {
+					for _, dttl := range []time.Duration{0, time.Minute} {
+						lines = append(lines, httpSpec{MaxAge: ma, Flag: fl, CCLines: more, Expires: ex, DefaultTTL: dttl, Method: "GET"})
+					}
+				}
+			}
+		}
+	}
+	fixed := []httpSpec{
+		{MaxAge: ip(1), Date: "3600", Method: "GET"},
+		{MaxAge: ip(0), Date: "3600", Method: "GET"},
+		{MaxAge: ip(5), Date: "-3600", Method: "GET"},
+		{Expires: "5", Date: "3600", Method: "GET"},
+		{Expires: "5", Date: "-3600", Method: "GET"},
+		{Date: "3600", DefaultTTL: 30 * time.Second, Method: "GET"},
+		{MaxAge: ip(5), Date: "3600", Age: ip(10), Method: "GET"},
+		{Flag: "public", CCLines: []string{"max-age=0"}, DefaultTTL: time.Minute, Method: "GET"},
+		{MaxAge: ip(3600), CCLines: []string{"no-store"}, Method: "GET"},
+	}
+	for _, ag := range []int{4294967296, 9223372037, 13835058055} {
+		fixed = append(fixed, httpSpec{MaxAge: ip(60), Age: ip(ag), Method: "GET"}, httpSpec{MaxAge: ip(3600), Age: ip(ag), Method: "GET"},
+			httpSpec{Expires: "3600", Age: ip(ag), Method: "GET"}, httpSpec{Age: ip(ag), DefaultTTL: 30 * time.Second, Method: "GET"})
+	}
 	if e.r.Thorough() {
-		return append(base, rest...)
+		return append(append(append(append(base, rest...), fixed...), dated...), lines...)
 	}
 	rng := e.r.Stream("http-specs")
 	rng.Shuffle(len(rest), func(i, j int) { rest[i], rest[j] = rest[j], rest[i] })
-	return append(base, rest[:250]...)
+	rng2 := e.r.Stream("http-specs-dated")
+	rng2.Shuffle(len(dated), func(i, j int) { dated[i], dated[j] = dated[j], dated[i] })
+	rng2.Shuffle(len(lines), func(i, j int) { lines[i], lines[j] = lines[j], lines[i] })
+	return append(append(append(append(base, rest[:250]...), fixed...), dated[:100]...), lines[:80]...)
 }
 
 func (e *env) httpCache() {
@@ -310,6 +439,29 @@ func (e *env) runHTTP(rec *httpRec, c *ck.RecCache, run func(c *ck.RecCache) ck.
 	if f.MustNot {
 		e.r.Count("http_cases_without_positive_freshness", 1)
 	}
+	h := rec.Response
+	switch d := h.dateOffset(); {
+	case d > 0:
+		e.r.Count("http_cases_date_ahead_of_clock", 1)
+	case d < 0:
+		e.r.Count("http_cases_date_behind_clock", 1)
+		// observation, no verdict: kept longer than until the Expires instant because the age is not derived from Date
+		if n, err := strconv.Atoi(h.Expires); err == nil && f.Source == "expires" {
+			for _, ph := range rec.Phases {
+				for _, ev := range ph.Events {
+					if ev.Op == "set" && ev.TTL > time.Duration(n)*time.Second+httpSlack {
+						e.r.Count("http_expires_with_old_date_kept_beyond_the_expires_instant(not judged)", 1)
+					}
+				}
+			}
+		}
+	}
+	if len(h.CCLines) > 0 {
+		e.r.Count("http_cases_cache_control_on_several_lines", 1)
+	}
+	if h.hugeAge() {
+		e.r.Count("http_cases_age_beyond_duration_range", 1)
+	}
 	if rec.NoCacheServed {
 		e.r.Count("http_no_cache_response_served_without_validation(not judged)", 1)
 	}
@@ -359,4 +511,9 @@ var jwksHTTPSpecs = []httpSpec{
 	{Method: "GET"},
 	{Expires: "-5", Method: "GET", DefaultTTL: 30 * time.Second},
 	{MaxAge: ip(5), Age: ip(10), Method: "GET"},
+	{MaxAge: ip(5), Date: "3600", Method: "GET"},
+	{MaxAge: ip(0), Date: "3600", Method: "GET"},
+	{MaxAge: ip(3600), CCLines: []string{"no-store"}, Method: "GET"},
+	{Flag: "public", CCLines: []string{"max-age=0"}, DefaultTTL: time.Minute, Method: "GET"},
+	{MaxAge: ip(60), Age: ip(13835058055), Method: "GET"},
 }
